@@ -325,3 +325,13 @@ M("el-size-exponent", EF, "        endTerm = 1 / self._beta(radius[0], radius[1]
   ["C16:quadratic"], ["not_cubic_in_size"], "integrand with beta^3.02")
 M("gg-sign", GG, "        return self.alpha * self.M * self.gbe * (1 / self.Rcr(x) - 1 / self.pbm.PSDbounds)", "        return -self.alpha * self.M * self.gbe * (1 / self.Rcr(x) - 1 / self.pbm.PSDbounds)",
   ["C18:graingrowth"], ["mean_grain_size_decreases"], "grain growth with the opposite sign")
+
+# ------------------------------------------------------------------ phase order (C11 phase_order clause)
+M("order-dtvol-last", PP, "                if dV[p] != 0:\n                    dtVol[p] = self.maxVolumeChange / (2 * np.abs(dV[p]))", "                if dV[-1] != 0:\n                    dtVol[p] = self.maxVolumeChange / (2 * np.abs(dV[-1]))",
+  ["C11:phase_order"], ["phase_order_changes_time_grid", "phase_order_changes_history"], "volume step limit taken from the last listed phase only (the defect fixed as KF-C11-1)")
+M("order-growth-vm0", KE, "self.PSDXbeta[p][:,0] / self.precipitateParameters[p].volume.Vm - self.PSDXalpha[p][:,0])", "self.PSDXbeta[p][:,0] / self.precipitateParameters[0].volume.Vm - self.PSDXalpha[p][:,0])",
+  ["C11:phase_order"], ["phase_order_changes_history", "phase_order_changes_time_grid"], "binary growth rate of every phase uses the molar volume of the first listed phase")
+M("order-volfrac-index", KE, "            Y.volFrac[0,p] = np.amin([volRatio * precParams.nucleation.volumeFactor * self.PBM[p].ThirdMomentFromN(x[p]), 1])", "            Y.volFrac[0,p] = np.amin([volRatio * (1 + 1e-6*p) * precParams.nucleation.volumeFactor * self.PBM[p].ThirdMomentFromN(x[p]), 1])",
+  ["C11:phase_order"], ["phase_order_changes_history"], "volume fraction of the phase listed at position p scaled by 1+1e-6 p")
+M("order-multi-vm0", KE, "        chemDG = (dGs[p] + strainEnergy) * precParams.volume.Vm\n", "        chemDG = (dGs[p] + strainEnergy) * self.precipitateParameters[0].volume.Vm\n",
+  ["C11:phase_order"], ["phase_order_changes_history", "phase_order_changes_time_grid"], "multicomponent growth converts the driving force with the molar volume of the first listed phase")
